@@ -164,6 +164,102 @@ META_SETTINGS = [
 ]
 
 
+# headers with a delimiter whose first token is not an entities column (the key alone decides)
+GROUPED_UNKNOWN = ["foo:bar", "foo::bar", "why : en", "Foo Bar::x::y", "jr:foo", "a:jr:b", "note:", ":x", "labels:en",
+                   "entity:id", "list_name_x::en"]
+
+
+def header_cases(rng, quick):
+    rows0, _ = flatten(TREES[0])
+    combos = ((1, 1, 1, 1), (0, 0, 0, 1), (1, 0, 0, 0))
+    for col, spellings in HEADERS.items():
+        others = spellings + [" " + spellings[0] + " ", spellings[0] + " "]
+        for a, b in itertools.permutations(others, 2):
+            if quick and rng.random() < 0.5:
+                continue
+            combo = rng.choice(combos)
+            er = entity_row(rng, combo)
+            er.pop(col, None)
+            va, vb = ("trees", "shrubs") if col == "dataset" else ("'va'", "${a}")
+            # both cells filled / the duplicate column present but empty / spellings split over two rows
+            shape = rng.choice(["both", "both", "empty-second", "empty-first", "two-rows"])
+            if shape == "both":
+                form = mk_form(rows0, [{a: va, **er, b: vb}])
+            elif shape == "empty-second":
+                form = mk_form(rows0, [{a: va, **er, b: ""}])
+            elif shape == "empty-first":
+                form = mk_form(rows0, [{a: "", **er, b: vb}])
+            else:
+                form = mk_form(rows0, [{a: va, **er}, {b: vb, **er}])
+            yield "header-duplicate", form
+    for g in GROUPED_UNKNOWN:
+        for combo in combos:
+            er = entity_row(rng, combo)
+            er[g] = "v"
+            if rng.random() < 0.4:
+                er[rng.choice(GROUPED_UNKNOWN)] = "w"
+            if rng.random() < 0.3:
+                base = g.split(":")[0].strip()
+                # (a header that is or ends in the bare token `jr` raises IndexError in process_header: C05's finding,
+                #  `unsupported` in the model; not generated here)
+                er[base if base not in ("", "jr") else "foo"] = "u"
+            yield "header-grouped-unknown", mk_form(rows0, [er])
+    for g in GROUPED_KNOWN:
+        col = SPEC_ENT_ALIASES.get("_".join(g.split("::" if "::" in g else ":")[0].split()).lower(), None) or \
+            "_".join(g.split("::" if "::" in g else ":")[0].split()).lower()
+        for combo in combos:
+            er = entity_row(rng, combo)
+            er.pop(col, None)
+            er[g] = "trees" if col == "dataset" else "'v'"
+            yield "header-grouped-column", mk_form(rows0, [er])
+    for a, b in ((" foo ", "foo"), ("foo", " foo "), ("Foo", "foo"), ("why", "why ")):
+        er = entity_row(rng, (0, 0, 0, 1))
+        er[a] = "1"
+        er[b] = "2"
+        yield "header-unknown-padded", mk_form(rows0, [er])
+
+
+# headers with a delimiter whose first token IS an entities column: the cell becomes a dict (known finding)
+GROUPED_KNOWN = ["label:en", "label::en", "Label : en", "entity_id:x", "create_if::a", "update_if : b", "dataset:x",
+                 "list_name::x", "dataset::a::b"]
+
+
+def grouped_known_headers(ents, cols=None):
+    out = []
+    for h in impl.headers_of(ents or [], cols):
+        if ":" not in h:
+            continue
+        n = "_".join(h.split("::" if "::" in h else ":")[0].split()).lower()
+        if SPEC_ENT_ALIASES.get(n, n) in SPEC_ENT_COLS:
+            out.append(h)
+    return out
+
+
+def match_grouped_column(f: Failure) -> bool:
+    """the failure is a crash / a Python dict repr in the declaration, on a sheet with a grouped entities column"""
+    if f.kind not in ("crash-on-header", "dict-valued-cell"):
+        return False
+    form = f.case.get("form", {})
+    if not grouped_known_headers(form.get("entities"), form.get("entities_cols")):
+        return False
+    if f.kind == "crash-on-header":
+        return "'dict' object has no attribute" in f.detail
+    return True
+
+
+def header_shape_special(ents, cols=None):
+    """the sheet has a header with a delimiter, or two headers that normalise to one column: the documented
+    table (C19's statement) says nothing about these; only correspondence and the crash oracle apply"""
+    hs = impl.headers_of(ents or [], cols)
+    if any(":" in h for h in hs):
+        return True
+    norm = []
+    for h in hs:
+        n = "_".join(h.split()).lower()
+        norm.append(SPEC_ENT_ALIASES.get(n, n))
+    return len(set(norm)) != len(norm)
+
+
 def mk_form(rows, entities, root=None, namespaces=None, extra_settings=None, audit=False):
     if audit:
         rows = list(rows) + [{"type": "audit", "name": "audit"}]
@@ -241,6 +337,10 @@ def enumerate_cases(ctx, factor):
             if rng.random() < 0.3:
                 er[rng.choice(EXTRA_COLS)] = "w"
             yield "unknown-column", mk_form(rows, [er])
+    # (5a) the header loop: two spellings of one column in both orders (exact spelling first / last, alias, padded,
+    #      empty-celled duplicate column, spellings split over two rows), headers with a delimiter (`:` / `::`) whose
+    #      first token is not an entities column, unknown columns differing only in padding
+    yield from header_cases(rng, quick)
     for combo in COMBOS:
         rows, _ = flatten(TREES[0])
         yield "two-rows", mk_form(rows, [entity_row(rng, combo), entity_row(rng, (0, 0, 0, 1), dataset="shrubs")])
@@ -537,7 +637,7 @@ def entities_version():
 # ----------------------------------------------------------------------------- known findings
 
 # F25 (save_to on `select_one age_group` rejected by a substring test) is repaired in the tree: no open finding.
-MATCHERS = {}
+MATCHERS = {"C19-grouped-entities-column": lambda f: match_grouped_column(f)}
 
 
 # ----------------------------------------------------------------------------- one case
@@ -556,6 +656,9 @@ def form_case(ctx, label, form):
         "omit_instanceID": str(st.get("omit_instanceID", "")).lower() in ("yes", "true"),
         "instance_name": bool(st.get("instance_name")),
     }
+    if form.get("entities") is not None:
+        mkw["entities_header"] = impl.headers_of(form["entities"], form.get("entities_cols"))
+    special = header_shape_special(form.get("entities"), form.get("entities_cols"))
     model = ctx.driver.call("entities.model", root=root, entities=ent_cells_raw(form.get("entities")), survey=sv, **mkw)
     skw = {"user_entities_ns": user_entities_ns(nsv)} if user_entities_ns(nsv) is not None else {}
     spec = ctx.driver.call("entities.spec", root=root, version=entities_version(),
@@ -592,7 +695,17 @@ def form_case(ctx, label, form):
                                          f"@{attr} is calculated as {v!r}, but @id as {idc!r} (expected {want!r})", case))
 
     # ---- oracle: the documented table, on the implementation's output
-    if spec["outcome"] == "unsupported":
+    if special:
+        ctx.count("spec-not-applicable:header-shape")
+        if r["ok"] and obs is not None:
+            vals = [v for n in ([obs["entity"]] if obs["entity"] else []) + obs["nodes"] for _, v in n["attrs"]]
+            if any("{'" in v for v in vals):
+                ctx.fail(Failure("dict-valued-cell", "a Python dict repr was written into the entity declaration: "
+                                 + str([v for v in vals if "{'" in v][:2]), case))
+        if r["class"] == "internal":
+            ctx.fail(Failure("crash-on-header", "internal exception on an entities sheet with grouped / duplicate headers: "
+                             + r["msg"][:200], case, extra={"impl_msg": r["msg"], "site": r.get("site")}))
+    elif spec["outcome"] == "unsupported":
         ctx.count("spec-unsupported:" + spec.get("why", ""))
     elif spec["outcome"] == "rejected":
         if r["ok"]:
@@ -633,8 +746,12 @@ def form_case(ctx, label, form):
                 ctx.count("bind-order-identical")
     else:
         ctx.count("in-fragment")
-        if r["ok"]:
+        if model["kind"] == "legacy-disagrees":
+            ctx.mismatch("model: dealiasRows and dealiasSheet disagree", case, r["msg"][:300], model)
+        elif r["ok"]:
             ctx.mismatch("model rejects, implementation accepts", case, "ok", model)
+        elif False:
+            ctx.mismatch("model: dealiasRows and dealiasSheet disagree", case, r["msg"][:300], model)
         elif model["kind"] == "msg":
             if r["class"] != "pyxform" or r["msg"] != model["msg"]:
                 ctx.mismatch("error message differs", case, r["msg"][:400], model["msg"])
